@@ -327,8 +327,10 @@ func (r Req) build(token string) *http.Request {
 		}
 		req.Header.Set("Content-Type", ct)
 	}
-	if r.Accept != "" {
-		req.Header.Set("Accept", r.Accept)
+	for _, line := range strings.Split(r.Accept, "\n") { // several Accept header lines are one list
+		if line != "" {
+			req.Header.Add("Accept", line)
+		}
 	}
 	req.Header.Set("X-Tok", "h-"+token)
 	switch r.Cred {
